@@ -44,8 +44,8 @@ def scripted_programs(bpc):
 
 
 def run_histories(ctx, oracles, nprog, nops, kind="namespace", vol_filter=None, mounts=None, remount_every=False,
-                  extra_cases=(), add_close=True, use_model=True, uni=True, scripted=True):
-    vols = gen.volumes(ctx.tier)
+                  extra_cases=(), add_close=True, use_model=True, uni=True, scripted=True, high=False):
+    vols = gen.volumes(ctx.tier, high=high)
     if vol_filter:
         vols = [v for v in vols if vol_filter(v[0])]
     mounts = mounts or [dict(encoding="ibm437", lazy_load=True), dict(encoding="cp850", lazy_load=False)]
@@ -55,7 +55,7 @@ def run_histories(ctx, oracles, nprog, nops, kind="namespace", vol_filter=None, 
         if scripted:
             from .. import fatspec
             for vi, (label, thunk) in enumerate(vols):
-                if label in ("build32-high", "build32-real", "mkfs32") and ctx.tier == "quick":
+                if label in ("build32-high", "build32-real", "mkfs32"):
                     continue
                 if ctx.time_left() < 20:
                     break
